@@ -75,7 +75,8 @@ Tick(ev) ==
             ELSE IF ~realok THEN {}
             ELSE {f \in {"n", "crc", "len", "dt"} : [n |-> Len(s.msgs), crc |-> s.crc, len |-> s.len, dt |-> sdelta][f] # o[f]}
                  \cup (IF [j \in 1..Len(s.msgs) |-> FieldsOf(s.msgs[j])] # [j \in DOMAIN o.msgs |-> FieldsOf(o.msgs[j])] THEN {"msgs"} ELSE {})
-      bad == IF realok THEN {} ELSE {"sender-" \o o.r}
+      \* a tick that is cut into no message at all can never reach the receiver
+      bad == IF ~realok THEN {"sender-" \o o.r} ELSE IF o.n = 0 THEN {"sender-no-messages"} ELSE {}
   IN /\ tick' = t /\ ssnaps' = s.snaps /\ sfree' = s.free /\ msgs' = msgs \o s.msgs
      /\ ptick' = ptick + 1
      /\ pnet' = IF realok THEN pnet \o [j \in 1..o.n |-> [t |-> ptick + 1, w |-> world]] ELSE pnet
